@@ -1,5 +1,6 @@
 import Hertz.Driver.Core
 import Hertz.Spec.Http
+import Hertz.Spec.Trailers
 /-!
 Spec step for the `serve` op (C01/C02/C03): evaluates, on the IMPLEMENTATION's output tokens,
  * C01: if the inbound stream is a well-formed unambiguous pipelined stream (strict decoder of
@@ -138,6 +139,9 @@ def comparable (disableNorm : Bool) (r : Req) : Bool :=
   let single (n : String) := (lookupAll r.fields n.toUTF8.toList).length ≤ 1 && (lookupAll r.fields n.toUTF8.toList).all (!·.isEmpty)
   let conns := lookupAll r.fields "connection".toUTF8.toList
   single "host" && single "user-agent" && single "content-type" && trailerDeclOk r && !r.foldedColon &&
+  -- a sender must not put these fields into a trailer section (RFC 7230 §4.1.2): hertz answers 400 when such a field is the
+  -- last one of the section and drops it otherwise (`Props/C01.lean: forbidden_trailer_field_order_dependent`): no claim
+  r.trailers.all (fun kv => !(forbiddenTrailer.map (·.toUTF8.toList)).contains (lowerAll kv.1)) &&
   conns.all (fun v => v == "close".toUTF8.toList || !(lowerAll v).isEmpty && !containsBytes "close".toUTF8.toList (lowerAll v))
 
 def specClose (r : Req) : Bool := (lookupAll r.fields "connection".toUTF8.toList).contains "close".toUTF8.toList
@@ -148,25 +152,47 @@ def untilClose : List Req → List Req
   | [] => []
   | r :: t => if specClose r then [r] else r :: untilClose t
 
-/-- every trailer field, in wire order, fills the first announced name of that spelling that has no value yet
-(so a name announced twice takes the first two fields of that name); announced names without a field stay empty,
-fields that were not announced are dropped -/
-def fillDecl (disableNorm : Bool) : List (Bytes × Option Bytes) → Bytes × Bytes → List (Bytes × Option Bytes)
-  | [], _ => []
-  | (d, v) :: t, kv =>
-    if v.isNone && (if disableNorm then kv.1 == d else lowerAll kv.1 == lowerAll d) then (d, some kv.2) :: t
-    else (d, v) :: fillDecl disableNorm t kv
+/-- the names a request announces: all its `Trailer` fields combine (RFC 7230 §3.2.2), each a comma separated list with
+optional whitespace around the elements, empty elements ignored (RFC 7230 §7) — independent of what the implementation
+says it was announced -/
+def specDecl (r : Req) : List Bytes :=
+  (lookupAll r.fields "trailer".toUTF8.toList).flatMap Hertz.Spec.Trailers.listElems
 
-def expectedTrailers (disableNorm : Bool) (s : SeenTok) (r : Req) : List (Bytes × Bytes) :=
-  (r.trailers.foldl (fillDecl disableNorm) (s.trailerNames.map (fun d => (d, none)))).map (fun dv => (dv.1, dv.2.getD []))
+/-- names are compared as the server compares them: exactly when header-name normalising is disabled, else ignoring case -/
+def keyF (dn : Bool) (k : Bytes) : Bytes := if dn then k else lowerAll k
 
-def matchReq (dn : Bool) (s : SeenTok) (r : Req) : Bool :=
+/-- the trailers the handler is to be handed (`Spec/Trailers.lean`): announced names in announcement order, each with the
+first field of that name not taken by an earlier announcement (empty if none is left); other fields dropped -/
+def expectedTrailers (dn : Bool) (r : Req) : List (Bytes × Bytes) :=
+  Hertz.Spec.Trailers.specTrailerView ((specDecl r).map (keyF dn)) (r.trailers.map (fun kv => (keyF dn kv.1, kv.2)))
+
+def trailersOk (dn : Bool) (s : SeenTok) (r : Req) : Bool :=
+  s.trailerNames.map (keyF dn) == (specDecl r).map (keyF dn) &&
+  s.trailers.map (fun kv => (keyF dn kv.1, canonVal kv.2)) == (expectedTrailers dn r).map (fun kv => (kv.1, canonVal kv.2))
+
+/-- known-finding class a trailer mismatch of this request falls in ("" = none): a HTAB as optional whitespace in a `Trailer`
+list (hertz strips SP only), several `Trailer` fields (hertz keeps the last one only) -/
+def trailerExcuse (r : Req) : String :=
+  let vs := lookupAll r.fields "trailer".toUTF8.toList
+  if vs.any (fun v => v.contains 9) then "trailer-decl-htab"
+  else if vs.length ≥ 2 then "trailer-decl-multi" else ""
+
+def matchCore (s : SeenTok) (r : Req) : Bool :=
   s.method == r.method && s.uri == r.target && s.body == r.body &&
-  canonFields (implFields s) == canonFields r.fields &&
-  s.trailers.map (fun kv => (kv.1, canonVal kv.2)) == (expectedTrailers dn s r).map (fun kv => (kv.1, canonVal kv.2))
+  canonFields (implFields s) == canonFields r.fields
+
+def matchReq (dn : Bool) (s : SeenTok) (r : Req) : Bool := matchCore s r && trailersOk dn s r
 
 def zipAll (dn : Bool) (ss : List SeenTok) (rs : List Req) : Bool :=
   ss.length == rs.length && (ss.zip rs).all (fun p => matchReq dn p.1 p.2)
+
+/-- class of a view mismatch that consists of trailer mismatches of excused requests only ("" otherwise) -/
+def viewClass (dn : Bool) (ss : List SeenTok) (rs : List Req) : String :=
+  if ss.length != rs.length then "" else
+  let bad := (ss.zip rs).filter (fun p => !matchReq dn p.1 p.2)
+  if bad.all (fun p => matchCore p.1 p.2 && trailerExcuse p.2 != "") then
+    (bad.head?.map (fun p => trailerExcuse p.2)).getD ""
+  else ""
 
 /-- final responses (non-1xx) in order -/
 def finals (rs : List RespTok) : List RespTok := rs.filter (fun r => r.status ≥ 200)
@@ -187,7 +213,8 @@ def c01 (stream : Bytes) (dn : Bool) (preParse : Bool) (disableKeepalive : Bool)
       let okResp := f.length == rs.length && (f.zipIdx.all (fun (r, i) =>
         r.status == 200 && (r.body == ("r" ++ toString (i + 1)).toUTF8.toList || r.body.isEmpty)))
       let ok100 := (o.resps.filter (fun r => r.status == 100)).length == (rs.filter specExpect).length
-      (okSeen && okResp && ok100 && o.wellFormed, "wellformed:" ++ toString rs.length)
+      let cl := if !okSeen && okResp && ok100 && o.wellFormed then viewClass dn o.seen rs else ""
+      (okSeen && okResp && ok100 && o.wellFormed, "wellformed:" ++ toString rs.length ++ (if cl.isEmpty then "" else " known:" ++ cl))
 
 /-- C03 on the output of any stream -/
 def c03 (o : ImplOut) : Bool :=
